@@ -15,6 +15,66 @@ import (
 	"github.com/zclconf/go-cty/cty"
 )
 
+// The own* helpers make the harness behave like an ordinary caller that treats
+// what an API call returned as its own: they take a private copy of the
+// container for rendering and then modify the returned container itself
+// (append within capacity, reorder, delete and insert).  If a returned slice or
+// map aliases state that other callers also receive, the race detector and the
+// comparison with the sequential reference see it.  Only containers are
+// touched, never what their elements point to (a diagnostic's Subject may point
+// into the shared tree by design).
+func ownD(d hcl.Diagnostics) hcl.Diagnostics {
+	cp := append(hcl.Diagnostics(nil), d...)
+	if len(d) > 1 {
+		d[0], d[len(d)-1] = d[len(d)-1], d[0]
+	}
+	if cap(d) > len(d) {
+		_ = append(d, &hcl.Diagnostic{Severity: hcl.DiagWarning, Summary: "caller's own diagnostic"})
+	}
+	return cp
+}
+
+func ownT(tv []hcl.Traversal) []hcl.Traversal {
+	cp := append([]hcl.Traversal(nil), tv...)
+	for i, j := 0, len(tv)-1; i < j; i, j = i+1, j-1 {
+		tv[i], tv[j] = tv[j], tv[i]
+	}
+	if cap(tv) > len(tv) {
+		_ = append(tv, hcl.Traversal{hcl.TraverseRoot{Name: "callers_own"}})
+	}
+	return cp
+}
+
+func ownA(a hcl.Attributes) hcl.Attributes {
+	if a == nil {
+		return nil
+	}
+	cp := make(hcl.Attributes, len(a))
+	var first string
+	for k, v := range a {
+		cp[k] = v
+		if first == "" || k < first {
+			first = k
+		}
+	}
+	if first != "" {
+		delete(a, first)
+	}
+	a["callers_own"] = &hcl.Attribute{Name: "callers_own"}
+	return cp
+}
+
+func ownC(c *hcl.BodyContent) *hcl.BodyContent {
+	if c == nil {
+		return nil
+	}
+	cp := &hcl.BodyContent{Attributes: ownA(c.Attributes), Blocks: append(hcl.Blocks(nil), c.Blocks...), MissingItemRange: c.MissingItemRange}
+	for i, j := 0, len(c.Blocks)-1; i < j; i, j = i+1, j-1 {
+		c.Blocks[i], c.Blocks[j] = c.Blocks[j], c.Blocks[i]
+	}
+	return cp
+}
+
 var hexAddr = regexp.MustCompile(`0x[0-9a-fA-F]+`)
 
 // Go structs for the reflection-driven decoder.
@@ -197,32 +257,46 @@ func (w *World) execOp(t int, op OpM) (out func() string) {
 			w.rs.pt[t].probes[pNilCtxSplat]++
 		}
 		v, d := e.Value(c)
+		d = ownD(d)
 		return func() string { return "value " + name + " = " + dumpVal(v) + " !" + dumpDiags(d) }
 	case "variables":
 		e, name := w.expr(op.Expr)
 		tv := e.Variables()
+		tv = ownT(tv)
 		return func() string { return "variables " + name + " = " + dumpTraversals(tv) }
 	case "content":
 		be := w.body(op.Target)
 		sel, _ := maskSchema(w.kindSchema(be.kind), op.Mask|op.Mask>>7)
 		c, d := be.body.Content(sel)
+		d = ownD(d)
+		c = ownC(c)
 		return func() string { return "content " + dumpContent(c) + " !" + dumpDiags(d) }
 	case "partial":
 		be := w.body(op.Target)
 		sel, rest := maskSchema(w.kindSchema(be.kind), op.Mask)
 		c, remain, d := be.body.PartialContent(sel)
 		c2, d2 := remain.Content(rest)
+		d = ownD(d)
+		d2 = ownD(d2)
+		c = ownC(c)
+		c2 = ownC(c2)
 		return func() string { return "partial " + dumpContent(c) + " !" + dumpDiags(d) + " || remain " + dumpContent(c2) + " !" + dumpDiags(d2) }
 	case "just_attrs":
 		be := w.body(op.Target)
 		a, d := be.body.JustAttributes()
+		d = ownD(d)
+		a = ownA(a)
 		return func() string { return "just_attrs " + dumpAttrs(a) + " !" + dumpDiags(d) }
 	case "decode":
 		v, d := hcldec.Decode(root(), w.spec, ctx)
+		d = ownD(d)
 		return func() string { return "decode " + dumpVal(v) + " !" + dumpDiags(d) }
 	case "partial_decode":
 		v, remain, d := hcldec.PartialDecode(root(), w.spec, ctx)
 		a, d2 := remain.JustAttributes()
+		d = ownD(d)
+		d2 = ownD(d2)
+		a = ownA(a)
 		return func() string { return "partial_decode " + dumpVal(v) + " !" + dumpDiags(d) + " || remain " + dumpAttrs(a) + " !" + dumpDiags(d2) }
 	case "expand_decode":
 		var opts []dynblock.ExpandOption
@@ -231,10 +305,12 @@ func (w *World) execOp(t int, op OpM) (out func() string) {
 		}
 		eb := dynblock.Expand(root(), ctx, opts...)
 		v, d := hcldec.Decode(eb, w.spec, ctx)
+		d = ownD(d)
 		return func() string { return "expand_decode " + dumpVal(v) + " !" + dumpDiags(d) }
 	case "shared_expand_decode":
 		eb := w.expanded[op.Target%len(w.expanded)]
 		v, d := hcldec.Decode(eb, w.spec, ctx)
+		d = ownD(d)
 		return func() string { return "shared_expand_decode " + dumpVal(v) + " !" + dumpDiags(d) }
 	case "gen_decode":
 		be, ok := w.genBody(op.Target)
@@ -242,13 +318,17 @@ func (w *World) execOp(t int, op OpM) (out func() string) {
 			return func() string { return "gen_decode: no generated blocks" }
 		}
 		v, d := hcldec.Decode(be.body, w.nested[be.kind], ctx)
+		d = ownD(d)
 		return func() string { return "gen_decode " + be.kind + " " + dumpVal(v) + " !" + dumpDiags(d) }
 	case "dec_vars":
 		tv := hcldec.Variables(root(), w.spec)
+		tv = ownT(tv)
 		return func() string { return "dec_vars " + dumpTraversals(tv) }
 	case "expand_vars":
 		tv1 := dynblock.VariablesHCLDec(root(), w.spec)
 		tv2 := dynblock.ExpandVariablesHCLDec(root(), w.spec)
+		tv1 = ownT(tv1)
+		tv2 = ownT(tv2)
 		return func() string { return "expand_vars " + dumpTraversals(tv1) + " | " + dumpTraversals(tv2) }
 	case "gohcl":
 		var g gRoot
@@ -258,11 +338,15 @@ func (w *World) execOp(t int, op OpM) (out func() string) {
 		if g.Remain != nil {
 			ra, rd = g.Remain.JustAttributes()
 		}
+		d = ownD(d)
+		ra = ownA(ra)
+		rd = ownD(rd)
 		return func() string { return "gohcl " + dumpGRoot(&g, ra, rd) + " !" + dumpDiags(d) }
 	case "gohcl_expr":
 		e, name := w.expr(op.Expr)
 		var v cty.Value
 		d := gohcl.DecodeExpression(e, ctx, &v)
+		d = ownD(d)
 		return func() string { return "gohcl_expr " + name + " = " + dumpVal(v) + " !" + dumpDiags(d) }
 	case "static":
 		e, name := w.expr(op.Expr)
@@ -273,6 +357,10 @@ func (w *World) execOp(t int, op OpM) (out func() string) {
 		sel, _ := maskSchema(w.kindSchema("root"), op.Mask|op.Mask>>5|op.Mask>>11)
 		c, rem, d := m.PartialContent(sel)
 		a, d2 := rem.JustAttributes()
+		d = ownD(d)
+		d2 = ownD(d2)
+		c = ownC(c)
+		a = ownA(a)
 		return func() string { return "merge_content " + dumpContent(c) + " !" + dumpDiags(d) + " || " + dumpAttrs(a) + " !" + dumpDiags(d2) }
 	case "spec_misc":
 		sch := hcldec.ImpliedSchema(w.spec)
